@@ -140,6 +140,7 @@ func pathHypotheses(splits [][]string, max int) []string {
 
 // FuncCtx is the per-function execution context.
 type FuncCtx struct {
+	shortTimeout func(obligation string) bool
 	eng   *Engine
 	fn    *ssa.Function
 	ct    *Contract
